@@ -56,7 +56,10 @@ pub fn main(a: &[String]) {
                 let c: Value = serde_json::from_str(&lines[i]).expect("case json");
                 let op = c["op"].as_str().expect("op");
                 *in_flight[w].lock().unwrap() = Some((std::time::Instant::now(), i));
-                let obs = ops::exec(op, &c["args"]);
+                // every call into the code under test is already under catch_unwind (proj::run); a panic that arrives here comes from
+                // the harness glue itself (bad case, missing argument) and must not silently drop the case
+                let obs = std::panic::catch_unwind(std::panic::AssertUnwindSafe(|| ops::exec(op, &c["args"])))
+                    .unwrap_or_else(|p| json!({"kind": "harness-error", "what": p.downcast_ref::<String>().cloned().or_else(|| p.downcast_ref::<&str>().map(|s| s.to_string())).unwrap_or_default()}));
                 *in_flight[w].lock().unwrap() = None;
                 if i % (n / 3 + 1) == 0 {
                     samples.lock().unwrap().push(json!({"op": op, "args": c["args"], "expected": c["out"], "observed": obs}));
@@ -66,7 +69,7 @@ pub fn main(a: &[String]) {
                         "args": c["args"], "expected": c["out"], "observed": obs})));
                 }
             }) }).collect();
-        for w in workers { let _ = w.join(); }
+        for w in workers { if w.join().is_err() { eprintln!("HARNESS replay worker died"); std::process::exit(3); } }
         done.store(true, Ordering::Relaxed);
     });
     let mut mm = out.into_inner().unwrap();
